@@ -112,7 +112,10 @@ def check_restart(spec, ctx):
         z = spec["z"]
         # failures whose cause is one of the recorded findings carry that finding's signature (see known_findings.json);
         # they are identified by the configuration class that triggers them, everything else keeps its own signature
-        if any(b["kind"] == "meta" and b.get("gf", 1) != 1 for b in z["biases"]):
+        # The uninterrupted run of this part also writes a state at step K, so that the recorded finding about saving projecting the
+        # pending hills of a metadynamics bias affects both runs alike after K; it shows only in the repeated step K itself (not
+        # compared for those configurations, see below) and, through that step's force, in the later motion of an extended variable
+        if any(b["kind"] == "meta" and b.get("gf", 1) != 1 for b in z["biases"]) and any(v["ext"] for v in z["vars"]):
             out.sig = "meta_save_projects_hills"
         elif has_kind(z, "opes"):
             out.sig = "opes_restart"
@@ -192,10 +195,13 @@ def _check_restart(spec, ctx):
                        case_text=full_case)
     byA = {s["it"]: s for s in stepsA}
     first = spec["first"]
+    delayed_meta = any(b["kind"] == "meta" and b.get("gf", 1) != 1 for b in z["biases"])
     for s in steps2:
         t = s["it"]
         if t < first + K:
             continue
+        if t == first + K and delayed_meta:
+            continue        # recorded finding (meta_save_projects_hills): the state holds the pending hills already tabulated
         a = byA[t]
         for i, (ca, cb) in enumerate(zip(a["cv"], s["cv"])):
             for key in ("x", "f"):
